@@ -67,23 +67,37 @@ func funcKey(pkgPath string, d *ast.FuncDecl) string {
 }
 
 func loadReviewedFuncs() map[string]bool {
-	f, err := os.Open(filepath.Join(verifDir(), "reviewed_funcs.txt"))
+	path := filepath.Join(verifDir(), "reviewed_funcs.txt")
+	if alt := os.Getenv("RVET_REVIEWED"); alt != "" {
+		path = alt
+	}
+	f, err := os.Open(path)
 	if err != nil {
 		return nil
 	}
 	defer f.Close()
 	m := map[string]bool{}
 	sc := bufio.NewScanner(f)
+	sc.Buffer(make([]byte, 1<<20), 1<<22)
 	for sc.Scan() {
-		l := strings.TrimSpace(sc.Text())
-		if l != "" && !strings.HasPrefix(l, "#") {
-			m[l] = true
+		l := sc.Text()
+		if strings.TrimSpace(l) == "" || strings.HasPrefix(l, "#") {
+			continue
+		}
+		key, data := l, ""
+		if i := strings.IndexByte(l, '\t'); i >= 0 {
+			key, data = l[:i], l[i+1:]
+		}
+		m[key] = true
+		if data != "" {
+			reviewedInfo[key] = data
 		}
 	}
 	return m
 }
 
-// listFuncs prints the function keys of the module (rvet funcs > reviewed_funcs.txt).
+// listFuncs prints the function keys of the module (rvet funcs > reviewed_funcs.txt), and the
+// identifying data of types, fields, signatures, variables and constants (rename.go).
 func listFuncs(pkgs map[string]*packages.Package) []string {
 	var out []string
 	for path, p := range pkgs {
@@ -100,11 +114,12 @@ func listFuncs(pkgs map[string]*packages.Package) []string {
 			continue
 		}
 		for _, name := range p.Types.Scope().Names() {
-			if tn, ok := p.Types.Scope().Lookup(name).(*types.TypeName); ok && !tn.IsAlias() {
+			if tn, ok := p.Types.Scope().Lookup(name).(*types.TypeName); ok && !tn.IsAlias() && strings.HasSuffix(path, "/regattapb") {
 				out = append(out, "type "+path+"."+name)
 			}
 		}
 	}
+	out = append(out, reviewedLines(pkgs)...)
 	sort.Strings(out)
 	return out
 }
@@ -119,12 +134,19 @@ type newHelper struct {
 	mustLit  bool              // only as an immediately invoked function literal
 	free     map[string]types.Object // package-level / imported names the declaration uses
 	imports  map[string]string // local package name → import path used by the declaration
+	// wrapper: the body is one `return expr` that mentions nothing unexported of its own package:
+	// a call can be replaced by expr with the parameters substituted, in any package
+	wrapper     bool
+	wrapImports map[string]string // imports the wrapper's expression needs
 }
 
 // normalizeNewHelpers returns overlay contents for the files in which calls were inlined.
 func normalizeNewHelpers(fset *token.FileSet, mod map[string]*packages.Package, reviewed map[string]bool) (map[string][]byte, []string) {
 	helpers := map[*types.Func]*newHelper{}
 	var notes []string
+	renamedFiles, rnotes := renameBack(mod, reviewed)
+	notes = append(notes, rnotes...)
+	notes = append(notes, fixSignatures(mod, reviewed, renamedFiles)...)
 	for path, p := range mod {
 		for _, f := range p.Syntax {
 			for _, d := range f.Decls {
@@ -138,6 +160,7 @@ func normalizeNewHelpers(fset *token.FileSet, mod map[string]*packages.Package, 
 				}
 				h := &newHelper{key: funcKey(path, fd), decl: fd, obj: obj, pkg: p, file: f, free: map[string]types.Object{}, imports: map[string]string{}}
 				analyseHelper(h)
+				analyseWrapper(h)
 				helpers[obj] = h
 			}
 		}
@@ -147,10 +170,10 @@ func normalizeNewHelpers(fset *token.FileSet, mod map[string]*packages.Package, 
 			fmt.Fprintf(os.Stderr, "new helper %s unusable=%q mustLit=%v free=%d\n", h.key, h.unusable, h.mustLit, len(h.free))
 		}
 	}
-	if len(helpers) == 0 {
-		return nil, nil
-	}
 	changed := map[*ast.File]*packages.Package{}
+	for f, p := range renamedFiles {
+		changed[f] = p
+	}
 	nInlined := 0
 	for pass := 0; pass < 6; pass++ {
 		progress := false
@@ -168,15 +191,17 @@ func normalizeNewHelpers(fset *token.FileSet, mod map[string]*packages.Package, 
 			break
 		}
 	}
-	if nInlined == 0 {
+	if nInlined == 0 && len(changed) == 0 {
 		return nil, nil
 	}
-	var names []string
-	for _, h := range helpers {
-		names = append(names, h.key)
+	if nInlined > 0 {
+		var names []string
+		for _, h := range helpers {
+			names = append(names, h.key)
+		}
+		sort.Strings(names)
+		notes = append(notes, fmt.Sprintf("normalisation: %d call(s) of %d function(s) not on the reviewed list inlined into their callers (%s)", nInlined, len(helpers), strings.Join(names, ", ")))
 	}
-	sort.Strings(names)
-	notes = append(notes, fmt.Sprintf("normalisation: %d call(s) of %d function(s) not on the reviewed list inlined into their callers (%s)", nInlined, len(helpers), strings.Join(names, ", ")))
 	out := map[string][]byte{}
 	for f := range changed {
 		// keep only compiler directives among the comments
@@ -274,6 +299,64 @@ func analyseHelper(h *newHelper) {
 	}
 }
 
+// analyseWrapper decides whether h is a pure forwarding wrapper (see newHelper.wrapper).
+func analyseWrapper(h *newHelper) {
+	fd := h.decl
+	if h.unusable != "" || h.mustLit || len(fd.Body.List) != 1 {
+		return
+	}
+	ret, ok := fd.Body.List[0].(*ast.ReturnStmt)
+	if !ok || len(ret.Results) != 1 {
+		return
+	}
+	info := h.pkg.TypesInfo
+	okAll := true
+	uses := map[types.Object]int{}
+	h.wrapImports = map[string]string{}
+	ast.Inspect(ret.Results[0], func(n ast.Node) bool {
+		switch x := n.(type) {
+		case *ast.FuncLit:
+			okAll = false
+			return false
+		case *ast.Ident:
+			o := info.Uses[x]
+			if o == nil {
+				return true
+			}
+			uses[o]++
+			if pn, isPkg := o.(*types.PkgName); isPkg {
+				h.wrapImports[pn.Name()] = pn.Imported().Path()
+			}
+			switch oo := o.(type) {
+			case *types.PkgName, *types.Nil, *types.Builtin:
+			case *types.Const:
+				if oo.Pkg() == h.pkg.Types && !oo.Exported() {
+					okAll = false
+				}
+			default:
+				if o.Pkg() == h.pkg.Types && o.Parent() == h.pkg.Types.Scope() {
+					okAll = false // a package-level name of its own package: would need qualifying
+				}
+				if v, isVar := o.(*types.Var); isVar && v.IsField() && !v.Exported() {
+					okAll = false
+				}
+				if f, isF := o.(*types.Func); isF && !f.Exported() && f.Pkg() == h.pkg.Types {
+					okAll = false
+				}
+			}
+		}
+		return true
+	})
+	// each parameter at most once (arguments are substituted, not bound)
+	sig := h.obj.Type().(*types.Signature)
+	for i := 0; i < sig.Params().Len(); i++ {
+		if uses[sig.Params().At(i)] > 1 {
+			okAll = false
+		}
+	}
+	h.wrapper = okAll
+}
+
 func noteFree(h *newHelper, info *types.Info, id *ast.Ident) {
 	obj := info.Uses[id]
 	if obj == nil {
@@ -346,13 +429,44 @@ func inlineInFile(fset *token.FileSet, p *packages.Package, f *ast.File, helpers
 		}
 		return h
 	}
+	// a forwarding wrapper may be replaced in any package of the module
+	wrapperTarget := func(c *ast.CallExpr) *newHelper {
+		fn, ok := typeutil.Callee(info, c).(*types.Func)
+		if !ok {
+			return nil
+		}
+		h := helpers[fn]
+		if h == nil || !h.wrapper {
+			return nil
+		}
+		// imported package names the expression uses must not be shadowed here
+		sc := p.Types.Scope().Innermost(c.Pos())
+		if sc == nil {
+			return nil
+		}
+		for name, obj := range h.free {
+			if pn, isPkg := obj.(*types.PkgName); isPkg {
+				_, o := sc.LookupParent(name, c.Pos())
+				if o2, ok := o.(*types.PkgName); ok && o2.Imported().Path() == pn.Imported().Path() {
+					continue
+				}
+				if o == nil {
+					continue
+				}
+				return nil
+			}
+		}
+		return h
+	}
 	n := 0
 	label := 0
-	ensureImports := func(h *newHelper) bool {
+	var ensureSet func(h *newHelper, set map[string]string) bool
+	ensureImports := func(h *newHelper) bool { return ensureSet(h, h.imports) }
+	ensureSet = func(h *newHelper, set map[string]string) bool {
 		if h.file == f {
 			return true
 		}
-		for name, path := range h.imports {
+		for name, path := range set {
 			found := false
 			for _, im := range f.Imports {
 				ipath := strings.Trim(im.Path.Value, `"`)
@@ -383,6 +497,13 @@ func inlineInFile(fset *token.FileSet, p *packages.Package, f *ast.File, helpers
 			case *ast.GoStmt, *ast.DeferStmt:
 				return false
 			case *ast.CallExpr:
+				if hw := wrapperTarget(x); hw != nil {
+					if e := substituteWrapper(hw, x, info); e != nil && ensureSet(hw, hw.wrapImports) {
+						c.Replace(e)
+						n++
+						return false
+					}
+				}
 				h := target(x)
 				if h == nil || !ensureImports(h) {
 					return true
@@ -444,8 +565,11 @@ func inlineInFile(fset *token.FileSet, p *packages.Package, f *ast.File, helpers
 			}
 		case "return":
 			// the helper's results are the caller's results, one to one
+			if fn == nil {
+				return nil // inside a function literal: left to the expression form
+			}
 			csig, _ := info.Defs[fn.Name].(*types.Func)
-			if fn == nil || csig == nil || csig.Type().(*types.Signature).Results().Len() != nres {
+			if csig == nil || csig.Type().(*types.Signature).Results().Len() != nres {
 				return nil
 			}
 			for i := 0; i < nres; i++ {
@@ -497,10 +621,15 @@ func inlineInFile(fset *token.FileSet, p *packages.Package, f *ast.File, helpers
 				targets = append(targets, ast.NewIdent("_"))
 			}
 		}
-		rewriteReturns(body, targets, lname)
-		sw := &ast.LabeledStmt{Label: ast.NewIdent(lname), Stmt: &ast.SwitchStmt{Body: &ast.BlockStmt{List: []ast.Stmt{
-			&ast.CaseClause{Body: append(bind, body.List...)},
-		}}}}
+		var sw ast.Stmt
+		if rewriteReturns(body, targets, lname) > 0 {
+			sw = &ast.LabeledStmt{Label: ast.NewIdent(lname), Stmt: &ast.SwitchStmt{Body: &ast.BlockStmt{List: []ast.Stmt{
+				&ast.CaseClause{Body: append(bind, body.List...)},
+			}}}}
+		} else {
+			// a helper without any return statement: an unused label would not compile
+			sw = &ast.BlockStmt{List: append(bind, body.List...)}
+		}
 		return append(append(pre, sw), post...)
 	}
 	rewriteList = func(list []ast.Stmt, fn *ast.FuncDecl, inGoDefer bool) []ast.Stmt {
@@ -660,7 +789,8 @@ func helperLiteral(h *newHelper, call *ast.CallExpr, info *types.Info) (*ast.Fun
 }
 
 // rewriteReturns replaces `return v, e` by `{ targets = v, e; break label }` (not inside literals).
-func rewriteReturns(body *ast.BlockStmt, targets []ast.Expr, label string) {
+func rewriteReturns(body *ast.BlockStmt, targets []ast.Expr, label string) int {
+	count := 0
 	mk := func(r *ast.ReturnStmt) ast.Stmt {
 		var list []ast.Stmt
 		if len(r.Results) > 0 {
@@ -678,11 +808,13 @@ func rewriteReturns(body *ast.BlockStmt, targets []ast.Expr, label string) {
 		case *ast.FuncLit:
 			return false
 		case *ast.ReturnStmt:
+			count++
 			c.Replace(mk(x))
 			return false
 		}
 		return true
 	}, nil)
+	return count
 }
 
 // copyNode deep-copies a syntax tree (positions kept, deprecated object links dropped).
@@ -733,4 +865,140 @@ func deepCopy(v reflect.Value) reflect.Value {
 		return n
 	}
 	return v
+}
+
+// substituteWrapper: the wrapper's return expression with its parameters (and receiver) replaced
+// by the call's arguments.
+func substituteWrapper(h *newHelper, call *ast.CallExpr, info *types.Info) ast.Expr {
+	ret := h.decl.Body.List[0].(*ast.ReturnStmt)
+	hinfo := h.pkg.TypesInfo
+	sig := h.obj.Type().(*types.Signature)
+	repl := map[types.Object]ast.Expr{}
+	simple := func(e ast.Expr) bool {
+		switch x := e.(type) {
+		case *ast.Ident, *ast.BasicLit:
+			return true
+		case *ast.SelectorExpr:
+			_, ok := x.X.(*ast.Ident)
+			return ok
+		case *ast.UnaryExpr:
+			_, ok := x.X.(*ast.Ident)
+			return ok
+		case *ast.StarExpr:
+			_, ok := x.X.(*ast.Ident)
+			return ok
+		}
+		return false
+	}
+	if sig.Recv() != nil {
+		sel, ok := call.Fun.(*ast.SelectorExpr)
+		if !ok {
+			return nil
+		}
+		si := info.Selections[sel]
+		if si == nil || si.Kind() != types.MethodVal || len(si.Index()) != 1 || !simple(sel.X) {
+			return nil
+		}
+		if len(h.decl.Recv.List[0].Names) == 1 {
+			repl[hinfo.Defs[h.decl.Recv.List[0].Names[0]]] = sel.X
+		}
+	}
+	if len(call.Args) != sig.Params().Len() {
+		return nil
+	}
+	i := 0
+	for _, fl := range h.decl.Type.Params.List {
+		for _, nm := range fl.Names {
+			if !simple(call.Args[i]) {
+				// an argument with possible effects is fine if the parameter is used exactly once
+				cnt := 0
+				ast.Inspect(ret.Results[0], func(n ast.Node) bool {
+					if id, ok := n.(*ast.Ident); ok && hinfo.Uses[id] == hinfo.Defs[nm] {
+						cnt++
+					}
+					return true
+				})
+				if cnt != 1 {
+					return nil
+				}
+			}
+			repl[hinfo.Defs[nm]] = call.Args[i]
+			i++
+		}
+		if len(fl.Names) == 0 {
+			i++
+		}
+	}
+	// copy with substitution: identifiers are matched in the original tree, so walk both
+	var subst func(orig ast.Node) ast.Node
+	subst = func(orig ast.Node) ast.Node {
+		if id, ok := orig.(*ast.Ident); ok {
+			if o := hinfo.Uses[id]; o != nil {
+				if r, ok := repl[o]; ok {
+					return &ast.ParenExpr{X: copyNode(r).(ast.Expr)}
+				}
+			}
+		}
+		return nil
+	}
+	out := copyWithSubst(ret.Results[0], subst)
+	e, _ := out.(ast.Expr)
+	return e
+}
+
+// copyWithSubst deep-copies n, replacing every node for which f returns non-nil.
+func copyWithSubst(n ast.Node, f func(ast.Node) ast.Node) ast.Node {
+	var rec func(v reflect.Value) reflect.Value
+	rec = func(v reflect.Value) reflect.Value {
+		switch v.Kind() {
+		case reflect.Interface:
+			if v.IsNil() {
+				return v
+			}
+			if node, ok := v.Interface().(ast.Node); ok {
+				if r := f(node); r != nil {
+					nv := reflect.New(v.Type()).Elem()
+					nv.Set(reflect.ValueOf(r))
+					return nv
+				}
+			}
+			c := rec(v.Elem())
+			nv := reflect.New(v.Type()).Elem()
+			nv.Set(c)
+			return nv
+		case reflect.Ptr:
+			if v.IsNil() {
+				return v
+			}
+			switch v.Interface().(type) {
+			case *ast.Object, *ast.Scope:
+				return reflect.Zero(v.Type())
+			}
+			nv := reflect.New(v.Elem().Type())
+			nv.Elem().Set(rec(v.Elem()))
+			return nv
+		case reflect.Struct:
+			nv := reflect.New(v.Type()).Elem()
+			for i := 0; i < v.NumField(); i++ {
+				if nv.Field(i).CanSet() {
+					nv.Field(i).Set(rec(v.Field(i)))
+				}
+			}
+			return nv
+		case reflect.Slice:
+			if v.IsNil() {
+				return v
+			}
+			nv := reflect.MakeSlice(v.Type(), v.Len(), v.Len())
+			for i := 0; i < v.Len(); i++ {
+				nv.Index(i).Set(rec(v.Index(i)))
+			}
+			return nv
+		}
+		return v
+	}
+	if r := f(n); r != nil {
+		return r
+	}
+	return rec(reflect.ValueOf(n)).Interface().(ast.Node)
 }
